@@ -2,6 +2,7 @@ import GBProofs.Props.C17
 import GBProofs.Definiteness
 import GBProofs.EriIntegral
 import GBProofs.ArrayDefiniteness
+import GBProofs.EriArrayDefiniteness
 /-!
 # C17 — definiteness of the four families of arrays, for the model's blocks themselves
 
@@ -35,4 +36,13 @@ diagonal), `kinetic_array_psd`, `pointCharge_array_nsd` (q ≥ 0) and their vers
 (`overlap_entry_eq_integral`, `kinetic_entry_eq_gradient`, `pointCharge_entry_eq_integral`). -/
 namespace GB.C17
 alias overlap_array_elements_at_most_one := overlap_array_abs_le_one
+end GB.C17
+
+/-! `EriArrayDefiniteness.lean`: the **repulsion array of a whole basis** (Cartesian and pure shells): every entry is the six-dimensional
+Coulomb integral of the four basis functions (`eri_array_eq_integral`), the array viewed as a matrix over index pairs is positive
+semi-definite (`eri_array_psd`, `eri_flat_psd`), `(ab|ab) ≥ 0` (`eri_array_self_nonneg`), Schwarz (`eri_array_schwarz`, `eri_array_abs_le`), and all of
+these survive a rectangular transformation of the four indices (`eri_array_transform_psd`, `…_schwarz`). -/
+namespace GB.C17
+alias repulsion_array_psd := eri_array_psd
+alias repulsion_array_schwarz := eri_array_schwarz
 end GB.C17
